@@ -13,7 +13,9 @@ var All = map[string]func(tier string) int{
 	"C08": C08,
 	"C11": C11,
 	"C12": C12,
+	"C14": C14,
 	"C16": C16,
+	"C17": C17,
 	"C18": C18,
 	"C19": C19,
 }
